@@ -87,16 +87,7 @@ def summary(shx):
             'temp': shx.temp_in_kelvin, 'wavelen': shx.wavelength}
 
 
-def duplicate_file(rng):
-    """two residues that hold atoms with identical text lines (a copied residue that has not been moved yet)"""
-    lines = ['TITL duplicates', 'CELL 0.71073 10.5 11.2 12.3 90 95.5 90', 'ZERR 4 0.001 0.002 0.003 0.01 0.02 0.03', 'LATT 1', 'SFAC C H O N', 'UNIT 16 20 4 2',
-             'L.S. 10', 'PLAN 20', 'WGHT 0.05 0.3', 'FVAR 1.0 0.6', 'FVAR 0.3']
-    body = ['%s %d %.5f %.5f %.5f 11.00000 0.04' % (n, s, rng.random(), rng.random(), rng.random()) for n, s in (('C1', 1), ('C2', 1), ('O1', 3), ('H1', 2))]
-    lines += ['O9 3 0.5 0.5 0.5 11.0 0.05']
-    for r in (1, 2, 3):
-        lines += ['RESI %d TOL' % r] + body
-    lines += ['RESI 0', 'HKLF 4', 'END']
-    return '\n'.join(lines) + '\n'
+duplicate_file = ec.duplicate_file
 
 
 def run(ctx):
